@@ -153,6 +153,9 @@ func (c18Driver) Generate(t *tape.Tape, tier string) core.Case {
 	}
 	g := model.Generate(t.Sub("scenario"), p)
 	c.Scenario = g.S
+	// a module may be in the set in two revisions: whatever was bound or
+	// resolved against the older one must follow when the newer one arrives
+	addOlderRevision(t.Sub("revisions"), g.S, 5)
 	good := model.RenderAll(g.S)
 	names := sortedNames(good)
 	bt := t.Sub("bad")
@@ -240,6 +243,10 @@ func (c18Driver) Run(cc core.Case) core.Outcome {
 	c := cc.(*c18Case)
 	var o core.Outcome
 	o.Key = tape.Hash64(core.MarshalCase(c))
+	if noRevPair(c.Scenario) {
+		o.Discard = "input-class-of-open-finding-C13-norev"
+		return o
+	}
 	texts := c.texts()
 	kind := map[string]string{}
 	for _, b := range c.Bad {
